@@ -163,8 +163,13 @@ impl<W: Write> RustWrite<W> {
             // Comments inside the item must not reach the output as they are: a leading one
             // would hide the `super::` prefix and a trailing `//` one would swallow the `;`.
             let u = &strip_comments(u);
-            if u.starts_with("super::") {
-                rust!(self, "use {}{};", super_prefix, u);
+            // `super :: x` is the same path as `super::x`
+            let after_super = u
+                .strip_prefix("super")
+                .map(str::trim_start)
+                .filter(|rest| rest.starts_with("::"));
+            if let Some(rest) = after_super {
+                rust!(self, "use {}super{};", super_prefix, rest);
             } else {
                 rust!(self, "use {};", u);
             }
